@@ -256,6 +256,24 @@ def run(ctx):
         if back != want:
             bad(dict(segments=segs, count=cnt, text=txt, parsed=repr(back)), 'a formatted path does not parse back to the same segments')
 
+    # segment sequences whose class / instance / attribute terms are NOT in positions 1 / 2 / 3 (a level skipped or repeated, a connection or
+    # port term in front): bare numbers mean class, instance, attribute by position, so these must be spelled out - and parse back
+    import itertools
+    kinds = [lambda v: {'class': v}, lambda v: {'instance': v}, lambda v: {'attribute': v}, lambda v: {'connection': v}, lambda v: {'port': 1, 'link': v}]
+    seqs = [list(t) for n in (1, 2, 3) for t in itertools.product(range(5), repeat=n)]
+    for t in (seqs if ctx.thorough else rng.sample(seqs, 60)):
+        segs = [kinds[k](rng.choice([1, 2, 3, 7, 100])) for k in t]
+        if rng.random() < 0.3:
+            segs.append({'element': rng.choice([0, 4])})
+        try:
+            txt = client.format_path(segs)
+            back = list(client.parse_operations([txt]))[0]['path']
+        except Exception as ex:
+            back = type(ex).__name__; txt = None
+        npath += 1
+        if back != segs:
+            bad(dict(segments=segs, text=txt, parsed=repr(back)), 'a formatted path does not parse back to the same segments')
+
     # numeric paths spelled with a trailing element term AND an explicit index (@c/i/a/e[x]): a path has at most one element segment
     # (the explicit index), the description parses -> formats -> parses to the same operation
     for _ in range(200 if ctx.thorough else 60):
